@@ -338,6 +338,7 @@ class RiskDifference:
         self._d = df.loc[(df[exposure] == self.reference) & (df[outcome] == 0)].shape[0]
         self._labels.append('Ref:' + str(self.reference))
         ri, lr, ur, sd, *_ = risk_ci(events=self._c, total=(self._c + self._d), alpha=self.alpha)
+        r0 = ri
         self.risks.append(ri)
         risk_lcl.append(lr)
         risk_ucl.append(ur)
@@ -370,8 +371,8 @@ class RiskDifference:
             rd_ucl.append(ucl)
             rd_sd.append(sd)
 
-            fr_lower.append(ri*((a+b)/n) - (1-ri)*(1 - (a+b)/n) - ((a+b)/n))
-            fr_upper.append(ri*((a+b)/n) + (1 - (a+b)/n) - (1-ri)*(1 - (a+b)/n))
+            fr_lower.append(ri*((a+b)/n) - r0*(1 - (a+b)/n) - ((a+b)/n))
+            fr_upper.append(ri*((a+b)/n) + (1 - (a+b)/n) - r0*(1 - (a+b)/n))
 
         # Getting the extent of missing data
         self._missing_ed = df.loc[(df[exposure].isnull()) & (df[outcome].isnull())].shape[0]
